@@ -44,6 +44,8 @@ P_ContentOnce == /\ R.g4 = [i \in 1..Len(objs) |-> i]
                  /\ \A i \in 1..Len(objs) : (R.pts[PtOf(i)].c3 = i) <=> Count(R.g3, i) = 1
 \* a grid re-used through update_dimensions (as the contact models re-use theirs at every iteration) answers like a fresh one
 P_Reuse == R.reuse_same
+\* objects are stored by value: a structured element read back from a voxel is, field by field, the one that was placed
+P_StructRetrievable == R.struct_same
 \* a neighbourhood only ever returns stored objects, each once
 P_NbhdSound == \A j \in Pts : \A i \in ToSet(R.pts[j].n4) : i \in 1..Len(objs) /\ Count(R.pts[j].n4, i) = 1
 
